@@ -86,6 +86,42 @@ func init() {
 			Text: "the number stored into an enum field is EnumValueDescriptor.Number() of a declared value (not the index that was drawn)", Detail: fmt.Sprintf("%d ValueOfEnum call(s)", n),
 			Tag: map[string]string{"kind": "overlay-test", "pkg": "rapidproto", "src": rapidEnumReplay}})
 	}
+	prevScalar := unitPosts["rapidproto.GeneratorOptions.genScalarFieldValue"]
+	unitPosts["rapidproto.GeneratorOptions.genScalarFieldValue"] = func(c *Ctx, u *Unit) {
+		prevScalar(c, u)
+		// every string handed to ValueOfString is a rapid string draw as it was drawn (rapid's string generators yield
+		// valid UTF-8, trusted; anything done to the string afterwards — clipping, concatenating bytes — is outside that)
+		n, ok, detail := 0, true, ""
+		ast.Inspect(c.fdecl.Body, func(nd ast.Node) bool {
+			call, isCall := nd.(*ast.CallExpr)
+			if !isCall {
+				return true
+			}
+			sel, isSel := call.Fun.(*ast.SelectorExpr)
+			if !isSel || sel.Sel.Name != "ValueOfString" || len(call.Args) != 1 {
+				return true
+			}
+			n++
+			direct := false
+			if draw, isDraw := ast.Unparen(call.Args[0]).(*ast.CallExpr); isDraw {
+				if ds, ok := draw.Fun.(*ast.SelectorExpr); ok && ds.Sel.Name == "Draw" {
+					if gen, ok := ast.Unparen(ds.X).(*ast.CallExpr); ok {
+						if fn := c.calleeFunc(gen); fn != nil && fn.Pkg() != nil && fn.Pkg().Path() == "pgregory.net/rapid" && strings.HasPrefix(fn.Name(), "String") {
+							direct = true
+						}
+					}
+				}
+			}
+			if !direct {
+				ok = false
+				detail = "ValueOfString(" + types.ExprString(call.Args[0]) + ")"
+			}
+			return true
+		})
+		u.Grounds = append(u.Grounds, Ground{Name: u.Name + "/string-value-is-the-drawn-string", OK: ok && n > 0,
+			Text: "the string stored into a string field is a rapid string draw, unmodified (valid UTF-8 by rapid's contract)", Detail: detail,
+			Tag: map[string]string{"kind": "overlay-test", "pkg": "rapidproto", "src": rapidStringReplay}})
+	}
 	unitPosts["rapidproto.GeneratorOptions.genFieldMask"] = func(c *Ctx, u *Unit) {
 		// the list that receives the drawn paths is the message's own field: obtained through Mutable, or stored back with Set
 		stored := false
@@ -266,3 +302,31 @@ func aliasCheck(rep *Report) error {
 	rep.Programs = append(rep.Programs, "package any (any/alias.go): the three exported names")
 	return nil
 }
+
+const rapidStringReplay = `package rapidproto
+
+import (
+	"fmt"
+	"testing"
+	"unicode/utf8"
+
+	"google.golang.org/protobuf/proto"
+	"google.golang.org/protobuf/types/known/wrapperspb"
+)
+
+func TestGovcReplay(t *testing.T) {
+	gen := MessageGenerator(&wrapperspb.StringValue{}, GeneratorOptions{})
+	for i := 0; i < 6000; i++ {
+		m := gen.Example(i)
+		if !utf8.ValidString(m.Value) {
+			fmt.Printf("GOVC-REPLAY: VIOLATED seed %d: generated string %q is not valid UTF-8\n", i, m.Value)
+			t.FailNow()
+		}
+		if _, err := proto.Marshal(m); err != nil {
+			fmt.Printf("GOVC-REPLAY: VIOLATED seed %d: the reference marshaller rejects the generated message: %v\n", i, err)
+			t.FailNow()
+		}
+	}
+	fmt.Println("GOVC-REPLAY: HOLDS")
+}
+`
